@@ -67,7 +67,7 @@ def meta(tier):
         'rule': (f'(a) every statement list of length 1..{k} over the 13-statement alphabet {ALPHA_NAMES} combined with 4 function '
                  f'configurations (3 bodies with their own labels, or no definition) = {total} models, each executed under budget 40 '
                  'on a frozen (mutation-sanitizing) model and again on a plain copy, against RefVM; (b) seeded random models up to '
-                 '40 statements with 4 labels, duplicate labels, dangling jumps, parameterised functions (re-defined under the same names), plus parsed '
+                 '40 statements with 4 labels, duplicate labels, dangling jumps, parameterised functions (re-defined under the same names; function statements nested inside function bodies), plus parsed '
                  'structured programs run against the jump-level reading; every random model is also run with ONE options dict shared by all models of the shard. Non-trivial: the model has a jump and a label, or a function call; '
                  'distinct = distinct model.'),
         'exhaustive': True,
@@ -190,13 +190,21 @@ def rand_expr(rnd, names):
         return {'binary': {'op': rnd.choice(['+', '-', '<', '==', '&&', '||', '*']), 'left': V(rnd.choice(names)), 'right': N(rnd.randint(0, 4))}}
     if x < 0.9:
         return {'unary': {'op': '!', 'expr': V(rnd.choice(names))}}
-    return {'function': {'name': rnd.choice(['f1', 'f2', 'mathAbs']), 'args': [V(rnd.choice(names))] * rnd.randint(0, 2)}}
+    return {'function': {'name': rnd.choice(['f1', 'f2', 'mathAbs', 'f3']), 'args': [V(rnd.choice(names))] * rnd.randint(0, 2)}}
 
 
-def rand_stmts(rnd, n, names, infunc):
+def rand_stmts(rnd, n, names, infunc, nested=False):
     out = []
     for _ in range(n):
         x = rnd.random()
+        if nested and infunc == 1 and 0.83 <= x < 0.9:
+            # a function statement inside a function body (schema-valid, only reachable with hand-built models): it binds a
+            # GLOBAL function when it executes, also replacing an earlier definition of that name
+            f = {'name': rnd.choice(['f1', 'f2', 'f3']), 'statements': rand_stmts(rnd, rnd.randint(0, 4), ['x', 'y', 'n', 'm'], 2)}
+            if rnd.random() < 0.5:
+                f['args'] = ['x']
+            out.append({'function': f})
+            continue
         if x < 0.2:
             out.append({'expr': {'expr': {'function': {'name': 'systemLog', 'args': [{'binary': {'op': '+', 'left': {'string': 'v='}, 'right': rand_expr(rnd, names)}}]}}}})
         elif x < 0.45:
@@ -210,7 +218,7 @@ def rand_stmts(rnd, n, names, infunc):
             out.append({'return': {'expr': rand_expr(rnd, names)}} if rnd.random() < 0.7 else {'return': {}})
         elif x < 0.9 and not infunc:
             args = rnd.sample(['x', 'y', 'n'], rnd.randint(0, 2))
-            f = {'name': rnd.choice(['f1', 'f2']), 'statements': rand_stmts(rnd, rnd.randint(0, 8), ['x', 'y', 'n', 'm'], True)}
+            f = {'name': rnd.choice(['f1', 'f2']), 'statements': rand_stmts(rnd, rnd.randint(0, 8), ['x', 'y', 'n', 'm'], 1, nested)}
             if args:
                 f['args'] = args
                 if rnd.random() < 0.2:
@@ -260,7 +268,7 @@ def run_random(spec, acc, api):
     for i in range(spec['n']):
         rnd = random.Random(base + i)
         if rnd.random() < 0.8:
-            plain = {'statements': rand_stmts(rnd, rnd.randint(1, 40), ['n', 'm', 'c'], False)}
+            plain = {'statements': rand_stmts(rnd, rnd.randint(1, 40), ['n', 'm', 'c'], False, nested=rnd.random() < 0.4)}
             init = {'n': 0, 'm': rnd.choice([0, 2, 'a', None]), 'c': rnd.choice([False, True, 0, 1])}
             if rnd.random() < 0.3:
                 # conditions of every value type: the truthiness of the language, not of the host language, decides a jump
